@@ -189,6 +189,42 @@ void run_case(const uint8_t* data, size_t size, vf::Case& c) {
     if (d.empty()) d = model_routes<ada::url_aggregator>("ada::url_aggregator", probe);
     if (d.empty()) d = params_route(probe);
     if (d.empty() && cp < 0x100) d = params_route(std::string("a") + (char)cp + "b");  // raw byte, also invalid UTF-8
+    // raw byte >= 0x80 outside any UTF-8 sequence: still a member of every set, so it must
+    // come out as %XX from every component (byte-wise; this is what reads the pre-scan
+    // tables such as path_signature_table for the bytes valid UTF-8 never contains)
+    if (d.empty() && cp >= 0x80 && cp < 0x100) {
+      std::string raw = std::string("a") + (char)cp + "b";
+      static const char* H = "0123456789ABCDEF";
+      std::string enc = std::string("a%") + H[cp >> 4] + H[cp & 15] + "b";
+      auto raw_routes = [&](auto tag) -> std::string {
+        using U = decltype(tag);
+        const char* tn = std::is_same_v<U, ada::url> ? "ada::url" : "ada::url_aggregator";
+        std::string w = std::string(tn) + " raw byte 0x" + vf::hexs(std::string(1, (char)cp)) + ": ";
+        for (const char* start : {"http://h/p", "foo://h/p"}) {
+          auto u = ada::parse<U>(start);
+          if (!u->set_pathname("/" + raw) || std::string(u->get_pathname()) != "/" + enc) return w + "set_pathname on " + start + " -> \"" + vf::show(std::string(u->get_pathname())) + "\"";
+          u->set_search(raw); if (std::string(u->get_search()) != "?" + enc) return w + "set_search on " + start + " -> \"" + vf::show(std::string(u->get_search())) + "\"";
+          u->set_hash(raw); if (std::string(u->get_hash()) != "#" + enc) return w + "set_hash on " + start + " -> \"" + vf::show(std::string(u->get_hash())) + "\"";
+          if (!u->set_username(raw) || std::string(u->get_username()) != enc) return w + "set_username on " + start + " -> \"" + vf::show(std::string(u->get_username())) + "\"";
+          if (!u->set_password(raw) || std::string(u->get_password()) != enc) return w + "set_password on " + start + " -> \"" + vf::show(std::string(u->get_password())) + "\"";
+        }
+        for (const char* scheme : {"http", "https", "foo", "file"}) {
+          std::string in = std::string(scheme) + "://host/" + raw + "/x" + raw + "?" + raw + "#" + raw;
+          auto r = ada::parse<U>(in);
+          if (!r) return w + "parse(\"" + vf::show(in) + "\") fails";
+          if (std::string(r->get_pathname()) != "/" + enc + "/x" + enc || std::string(r->get_search()) != "?" + enc || std::string(r->get_hash()) != "#" + enc)
+            return w + "parse(\"" + vf::show(in) + "\") -> \"" + vf::show(std::string(r->get_href())) + "\"";
+        }
+        {
+          std::string in = "foo:" + raw;
+          auto r = ada::parse<U>(in);
+          if (!r || std::string(r->get_pathname()) != enc) return w + "opaque path parse(\"" + vf::show(in) + "\") -> \"" + (r ? vf::show(std::string(r->get_pathname())) : std::string("failure")) + "\"";
+        }
+        return "";
+      };
+      d = raw_routes(ada::url_aggregator{});
+      if (d.empty()) d = raw_routes(ada::url{});
+    }
     // internal encoder, every set, raw byte
     if (d.empty() && cp < 0x100)
       for (int s = 0; s < NSETS && d.empty(); s++) {
